@@ -356,9 +356,19 @@ def process_dict_breadth_first(parent_node, type_name, value, func=lambda x, y: 
     :return (list): the collected child nodes
     """
     # we wrap the keys() in a call to list to prevent concurrent changes
-    return [Node(value=NodeValue(func(type_name, key), value[key], key), parent=parent_node) for key in
-            list(value.keys()) if
+    return [Node(value=NodeValue(func(type_name, name), value[key], name), parent=parent_node) for key, name in
+            [(key, __key_name(key)) for key in list(value.keys())] if
             key in value]
+
+
+def __key_name(key) -> str:
+    # dict keys can be of any hashable type, variable names have to be strings
+    if isinstance(key, str):
+        return key
+    try:
+        return str(key)
+    except BaseException:
+        return f'{type(key)}@{id(key)}'
 
 
 def process_list_breadth_first(var_collector: Collector, parent_node: ParentNode, value) -> List[Node]:
